@@ -5,4 +5,5 @@ P=$1; ID=$2; TIER=${3:-quick}
 cd /repo && git apply "$P" || { echo "patch does not apply"; exit 2; }
 cd /verif && ./check $ID --tier $TIER > /tmp/try_mutant.out 2>&1; RC=$?
 cd /repo && git checkout -- . 
+python3 -c "import sys; sys.path.insert(0,'/verif/lib'); import common; common.refresh_all_gen()"
 echo "exit=$RC"; grep -c "^VIOLATION" /tmp/try_mutant.out; grep "^VIOLATION\|^KNOWN\|tier=" /tmp/try_mutant.out | head -8
